@@ -84,7 +84,7 @@ def _step(rec):
     d = rec.get("detail") or {}
     rule = d.get("attributed_rule") or rec.get("rule")
     before = d.get("step_before") or rec.get("before") or rec.get("input")
-    after = d.get("step_after") or d.get("after") or rec.get("after")
+    after = d.get("step_after") or rec.get("after") or d.get("after")
     return rule, before, after
 
 
